@@ -131,12 +131,23 @@ structure Resolver where
   udpClient : String := ""
 deriving DecidableEq, Repr, Inhabited
 
+/-- one comma-separated item of `fromPortRanges` / `toPortRanges` (`portset.PortSet.Parse`) -/
+inductive PortItem
+  | single (p : Nat) | range (lo hi : Nat) | junk
+deriving DecidableEq, Repr, Inhabited
+
 structure Route where
   name : String := ""
   network : String := ""
   client : String := ""
   resolver : String := ""
   fromServers : List String := []
+  /-- user names are matched at request time only: nothing to resolve at load -/
+  fromUsers : List String := []
+  fromPorts : List Nat := []
+  fromRanges : List PortItem := []
+  toPorts : List Nat := []
+  toRanges : List PortItem := []
   fromPrefixSets : List String := []
   toDomains : Bool := false
   toDomainSets : List String := []
@@ -158,12 +169,32 @@ structure Router where
   routes : List Route := []
 deriving DecidableEq, Repr, Inhabited
 
+/-- `secretPath` of the API block, as far as `http.ServeMux` patterns care -/
+inductive Secret
+  | none | plain | wildcard | malformed
+deriving DecidableEq, Repr, Inhabited
+
+structure ApiListener where
+  tls : Bool := false
+  certList : Bool := false     -- names a certificate list (none exists in the modelled subset)
+  clientCAs : Bool := false
+deriving DecidableEq, Repr, Inhabited
+
+structure Api where
+  enabled : Bool := false
+  listeners : List ApiListener := []
+  secret : Secret := .none
+  pprof : Bool := false
+  static : Bool := false
+deriving DecidableEq, Repr, Inhabited
+
 structure Config where
   servers : List Server := []
   clients : List Client := []
   groups : List Group := []
   resolvers : List Resolver := []
   router : Router := {}
+  api : Api := {}
 deriving DecidableEq, Repr, Inhabited
 
 -- ---------------------------------------------------------------- effective configuration
@@ -200,6 +231,8 @@ deriving DecidableEq, Repr, Inhabited
 structure Eff where
   clients : List EffClient
   servers : List EffServer
+  /-- per route: the kind of source / destination port criterion built (`-`, `single`, `ranges`, `bitset`) -/
+  routes : List (String × String) := []
   /-- names usable as TCP / UDP clients (clients and client groups) -/
   tcpNames : List String
   udpNames : List String
@@ -388,6 +421,46 @@ def Config.bitsetCapacity (c : Config) : Nat := mapSize (c.servers.map (·.name)
 def defaultClientOK (name : String) (names : List String) : Bool :=
   name = "reject" || name = "" || names.contains name
 
+-- port criteria (router/route.go, portset/portset.go)
+
+/-- `PortSet.Parse` accepts the item -/
+def PortItem.valid : PortItem → Bool
+  | .single p => decide (1 ≤ p) && decide (p ≤ 65535)
+  | .range lo hi => decide (1 ≤ lo) && decide (hi ≤ 65535) && decide (lo < hi)
+  | .junk => false
+
+def PortItem.covers : PortItem → Nat → Bool
+  | .single q, p => q == p
+  | .range lo hi, p => decide (lo ≤ p) && decide (p ≤ hi)
+  | .junk, _ => false
+
+/-- membership in the port set built from a port list and the parsed range items -/
+def portCovered (ports : List Nat) (items : List PortItem) (p : Nat) : Bool :=
+  ports.contains p || items.any (·.covers p)
+
+/-- `PortSet.Count` -/
+def portCount (ports : List Nat) (items : List PortItem) : Nat :=
+  ((List.range 65536).filter (portCovered ports items)).length
+
+/-- `PortSet.RangeCount`: the number of maximal runs -/
+def portRangeCount (ports : List Nat) (items : List PortItem) : Nat :=
+  ((List.range 65536).filter (fun p => portCovered ports items p && !(decide (0 < p) && portCovered ports items (p - 1)))).length
+
+def hasPorts (ports : List Nat) (items : List PortItem) : Bool := !ports.isEmpty || !items.isEmpty
+
+/-- which criterion `Route` builds: one port, a range set (at most 16 ranges) or the bit set -/
+def portKind (ports : List Nat) (items : List PortItem) : String :=
+  if !hasPorts ports items then "-"
+  else if portCount ports items = 1 then "single"
+  else if portRangeCount ports items ≤ 16 then "ranges"
+  else "bitset"
+
+/-- the three checks of a port criterion: a zero port in the list, an item `Parse` refuses, all 65535 ports -/
+def portChecks (ports : List Nat) (items : List PortItem) : List (Bool × String) :=
+  [ (ports.contains 0, "route-port-zero"),
+    (!items.all (·.valid), "route-port-ranges"),
+    (hasPorts ports items && portCount ports items == 65535, "route-ports-all") ]
+
 /-- `RouteConfig.Route`, the checks up to the construction of the criteria, in order -/
 def Route.checks (rt : Route) (resolvers tcp udp servers domainSets prefixSets : List String) : List (Bool × String) :=
   [ (rt.name = "" || rt.name = "default", "route-name"),
@@ -400,9 +473,11 @@ def Route.checks (rt : Route) (resolvers tcp udp servers domainSets prefixSets :
     (!(rt.network = "" || rt.network = "tcp" || rt.network = "udp"), "route-network"),
     (rt.client ≠ "reject" && (rt.network = "" || rt.network = "tcp") && !tcp.contains rt.client, "route-tcp-notfound"),
     (rt.client ≠ "reject" && (rt.network = "" || rt.network = "udp") && !udp.contains rt.client, "route-udp-notfound"),
-    (!rt.fromServers.all servers.contains, "route-server-notfound"),
-    (!rt.fromPrefixSets.all prefixSets.contains, "route-prefixset-notfound"),
-    (!rt.toDomainSets.all domainSets.contains, "route-domainset-notfound"),
+    (!rt.fromServers.all servers.contains, "route-server-notfound") ] ++
+  portChecks rt.fromPorts rt.fromRanges ++
+  [ (!rt.fromPrefixSets.all prefixSets.contains, "route-prefixset-notfound") ] ++
+  portChecks rt.toPorts rt.toRanges ++
+  [ (!rt.toDomainSets.all domainSets.contains, "route-domainset-notfound"),
     ((rt.toDomains || !rt.toDomainSets.isEmpty) && !rt.toMatchedPrefixSets.all prefixSets.contains, "route-prefixset-notfound"),
     (!rt.toPrefixSets.all prefixSets.contains, "route-prefixset-notfound") ]
 
@@ -543,7 +618,34 @@ def checkServer (s : Server) : R EffServer :=
 def tcpNamesOf (cs : List Client) : List String := (cs.filter (·.enableTCP)).map (·.name)
 def udpNamesOf (cs : List Client) : List String := (cs.filter (·.enableUDP)).map (·.name)
 
-/-- `Config.Manager`: clients -> client groups -> DNS -> server names -> router -> servers -/
+-- ---------------------------------------------------------------- API block (api/api.go NewServer)
+
+def checkApiListener (l : ApiListener) : R Unit :=
+  match firstErr [ (l.tls && l.certList, "api-certlist"), (l.tls && l.clientCAs, "api-clientcas") ] with
+  | some e => .error e
+  | none => .ok ()
+
+/-- what happens to `secretPath`, pprof and static file patterns in `http.ServeMux`: errors whose class starts
+    with `PANIC:` are panics of `ServeMux.Handle` at load (possible only when the code lacks the two guards) -/
+def Api.muxChecks (a : Api) : List (Bool × String) :=
+  [ (C18.apiSecretPathChecked && (a.secret = .wildcard || a.secret = .malformed), "api-secret-path"),
+    (!C18.apiSecretPathChecked && a.secret = .malformed, "PANIC:api-secret-path"),
+    (!C18.apiPprofIndexHasMethod && a.pprof && a.static, "PANIC:api-mux-conflict") ]
+
+def checkApi (a : Api) : R Unit :=
+  if !a.enabled then .ok ()
+  else if a.listeners.isEmpty then .error "api-no-listeners"
+  else match mapE checkApiListener a.listeners with
+    | .error e => .error e
+    | .ok _ =>
+      match firstErr a.muxChecks with
+      | some e => .error e
+      | none => .ok ()
+
+def routeKinds (r : Router) : List (String × String) :=
+  r.routes.map fun rt => (portKind rt.fromPorts rt.fromRanges, portKind rt.toPorts rt.toRanges)
+
+/-- `Config.Manager`: clients -> client groups -> DNS -> server names -> router -> servers -> API -/
 def validate (c : Config) : R Eff :=
   if c.servers.isEmpty then .error "no-servers"
   else
@@ -565,7 +667,10 @@ def validate (c : Config) : R Eff :=
             | .ok () =>
               match mapE checkServer c.servers with
               | .error e => .error e
-              | .ok ess => .ok { clients := ecs, servers := ess, tcpNames := tcp, udpNames := udp }
+              | .ok ess =>
+                match checkApi c.api with
+                | .error e => .error e
+                | .ok () => .ok { clients := ecs, servers := ess, routes := routeKinds c.router, tcpNames := tcp, udpNames := udp }
 
 /-- the whole JSON document decodes as far as the modelled fields go -/
 def Config.decodes (c : Config) : Bool := c.servers.all (·.decodes) && c.clients.all (·.decodes)
